@@ -9,6 +9,13 @@
 //     exact-size libc block (so ASan sees every byte outside it), junk-filled, released exactly once and with
 //     the size it was requested with; the ledger must be empty when all objects of a case are gone
 //   * every raw C-string / byte operand is handed over in an exact-size heap block (ASan red zones)
+//   * objects whose text is SHORTER than their buffer (the state replace(c, '\0') leaves behind - the only public operation that
+//     shortens a string in place) are a value class of their own: a share of the single-operation cases builds its receiver /
+//     argument objects that way (text + separator + stale tail, separator replaced by NUL), two exhaustive sections do so for all
+//     short {a,b} strings, and the histories have a step that cuts a live object at one of its characters. What replace(c, '\0')
+//     itself yields is not judged (NUL as a character operand): the harness looks at what the object holds afterwards and goes on
+//     from there; every LATER operation is judged on the C-string content (the text up to the first NUL). Whether an object is in
+//     that state is observed from outside through the allocator ledger (buffer size > text length + 1).
 //   * ASan/UBSan build
 #ifdef VF_MEMCHECK
 #include <valgrind/memcheck.h>
@@ -163,6 +170,7 @@ struct RecAlloc : public TestMemoryAllocator {
         free(mem);
         live.erase(it);
     }
+    size_t size_of(const char* p) const { auto it = live.find(const_cast<char*>(p)); return it == live.end() ? 0 : it->second.size; }
     bool is_live(const char* p, size_t need) const { auto it = live.find(const_cast<char*>(p)); return it != live.end() && it->second.size >= need; }
 };
 static RecAlloc* g_rec;
@@ -332,10 +340,12 @@ static const OpInfo OPS[OP_N] = {
 
 struct Case {
     int op = 0; S s, t, u; size_t p = 0, q = 0; int c1 = 'a', c2 = 'b'; uint64_t v1 = 0, v2 = 0; double d = 0; int k = 0; bool lng = false;
+    int cut = 0; S tail;      // cut: which of the s/t/u OBJECTS (bit 1,2,4) are built as text + separator + tail and then shortened in place by replace(separator, '\0')
 };
 static S case_json(const Case& cs) {
     return vf::J().k("op", OPS[cs.op].name).k("s", clip(cs.s)).k("t", clip(cs.t)).k("u", clip(cs.u)).k("p", zs(cs.p)).k("q", zs(cs.q))
-        .k("c1", cs.c1).k("c2", cs.c2).k("v1", (unsigned long long) cs.v1).k("v2", (unsigned long long) cs.v2).k("d", cs.d).k("k", cs.k).str();
+        .k("c1", cs.c1).k("c2", cs.c2).k("v1", (unsigned long long) cs.v1).k("v2", (unsigned long long) cs.v2).k("d", cs.d).k("k", cs.k)
+        .k("shortened_in_place", cs.cut).k("stale_tail", clip(cs.tail)).str();
 }
 // input class named in violation keys (first that applies)
 static const char* cls(const Case& cs) {
@@ -347,9 +357,45 @@ static const char* cls(const Case& cs) {
     if (((o.strs & 1) && has_high(cs.s)) || ((o.strs & 2) && has_high(cs.t)) || ((o.strs & 4) && has_high(cs.u))) return "high-bit-bytes";
     return "plain";
 }
+// second part of the input class: an operand object whose text is shorter than its buffer
+static const char* cutsfx(const Case& cs) { return cs.cut ? "+shortened-operand" : ""; }
 static void bad(vf::Ctx& c, const Case& cs, const S& what, const S& detail) {
-    c.violation(S(OPS[cs.op].name) + "-wrong:" + what + ":" + cls(cs), detail);
+    c.violation(S(OPS[cs.op].name) + "-wrong:" + what + ":" + cls(cs) + cutsfx(cs), detail);
 }
+// ---------------------------------------------------------------- objects whose text is shorter than their buffer
+// which operand objects of an operation can be built that way (bit 1: the object made from s, 2: from t, 4: from u)
+static int cut_mask(int op);
+static char cut_sep(const S& text) {                     // a non-NUL byte that does not occur in the text (so the cut lands exactly behind it)
+    static const unsigned char FIRST[] = { ';', 0x1e, '~', 0x02 };
+    for (unsigned char b : FIRST) if (text.find((char) b) == S::npos) return (char) b;
+    for (int b = 1; b < 256; b++) if (text.find((char) b) == S::npos) return (char) b;
+    return 0;                                            // every byte value occurs: no separator, the object stays plain
+}
+static S cut_src(const Case& cs, const S& text, int bit) {
+    char sep = (cs.cut & bit) ? cut_sep(text) : 0;
+    return sep ? text + sep + cs.tail : text;
+}
+// o was constructed from cut_src(cs, text, bit): shorten it in place. The result of replace(sep, '\0') is not judged: if the object
+// does not hold `text` afterwards the case goes on with a plain object (counted).
+static void cut_apply(vf::Ctx& c, const Case& cs, SimpleString& o, const S& text, int bit) {
+    if (!(cs.cut & bit)) return;
+    char sep = cut_sep(text);
+    if (!sep) { c.count("shortened_operand_no_separator_available"); return; }
+    o.replace(sep, '\0');
+    const char* g = o.asCharString();
+    size_t cap = g_rec->size_of(g);
+    size_t n = cap ? strnlen(g, cap) : 0;
+    if (!cap || n == cap || n != text.size() || memcmp(g, text.data(), n) != 0) {
+        c.count("silent_nul_character_operand"); c.count("shortened_operand_unexpected_result_not_judged_plain_object_used");
+        CBuf b(text); o = SimpleString(b.p);
+        return;
+    }
+    c.count("operand_objects_shortened_in_place");
+    c.count(cap > n + 1 ? "operand_objects_text_shorter_than_buffer" : "operand_objects_shortened_but_buffer_exact");
+    if (cap > n + 1) c.count("stale_bytes_behind_terminator", cap - n - 1);
+}
+// declares the SimpleString `var` holding `text`, plain or shortened in place as the case says
+#define OBJ(var, text, bit) SimpleString var(cut_src(cs, text, bit).c_str()); cut_apply(c, cs, var, text, bit)
 static bool expect_str(vf::Ctx& c, const Case& cs, const S& what, const SimpleString& got, const S& exp) {
     const char* g = got.asCharString();
     size_t gl = strlen(g);
@@ -402,8 +448,8 @@ static void op_repeat(vf::Ctx& c, const Case& cs) {
     expect_str(c, cs, n == 0 ? "zero-times" : "n-times", x, exp);
 }
 static void op_copy(vf::Ctx& c, const Case& cs) {
-    CBuf b(cs.s);
-    SimpleString a(b.p);
+    CBuf b(cut_src(cs, cs.s, 1));
+    SimpleString a(b.p); cut_apply(c, cs, a, cs.s, 1);
     SimpleString cp(a);
     SimpleString d("zz");
     d = a;
@@ -419,7 +465,7 @@ static void op_copy(vf::Ctx& c, const Case& cs) {
 }
 static void op_plus(vf::Ctx& c, const Case& cs) {
     CBuf ub(cs.u);
-    SimpleString a(cs.s.c_str()), b(cs.t.c_str());
+    OBJ(a, cs.s, 1); OBJ(b, cs.t, 2);
     expect_str(c, cs, "operator+", a + b, cs.s + cs.t);
     expect_str(c, cs, "source-changed", a, cs.s); expect_str(c, cs, "source-changed", b, cs.t);
     a += b; expect_str(c, cs, "+=object", a, cs.s + cs.t);
@@ -430,7 +476,7 @@ static void op_plus(vf::Ctx& c, const Case& cs) {
     SimpleString e; e += ""; expect_str(c, cs, "empty+=empty", e, "");
 }
 static void op_eq(vf::Ctx& c, const Case& cs) {
-    SimpleString a(cs.s.c_str()), b(cs.t.c_str());
+    OBJ(a, cs.s, 1); OBJ(b, cs.t, 2);
     expect_bool(c, cs, "==", a == b, cs.s == cs.t); expect_bool(c, cs, "==", b == a, cs.s == cs.t);
     expect_bool(c, cs, "!=", a != b, cs.s != cs.t);
     expect_bool(c, cs, "==self", a == a, true);
@@ -439,7 +485,7 @@ static void op_eq(vf::Ctx& c, const Case& cs) {
     expect_str(c, cs, "source-changed", a, cs.s); expect_str(c, cs, "source-changed", b, cs.t);
 }
 static void op_contains(vf::Ctx& c, const Case& cs) {
-    SimpleString a(cs.s.c_str()), b(cs.t.c_str());
+    OBJ(a, cs.s, 1); OBJ(b, cs.t, 2);
     const S &s = cs.s, &t = cs.t;
     expect_bool(c, cs, "contains", a.contains(b), s.find(t) != S::npos);
     expect_bool(c, cs, "containsNoCase", a.containsNoCase(b), ref_lower(s).find(ref_lower(t)) != S::npos);
@@ -449,19 +495,19 @@ static void op_contains(vf::Ctx& c, const Case& cs) {
     expect_str(c, cs, "source-changed", a, s); expect_str(c, cs, "source-changed", b, t);
 }
 static void op_count(vf::Ctx& c, const Case& cs) {
-    SimpleString a(cs.s.c_str()), b(cs.t.c_str());
+    OBJ(a, cs.s, 1); OBJ(b, cs.t, 2);
     size_t got = a.count(b);
     if (cs.t.empty()) { c.count("silent_count_empty_pattern"); return; }
     size_t ov = ref_count(cs.s, cs.t, true), no = ref_count(cs.s, cs.t, false);
     if (ov != no) {
         c.count("silent_count_overlapping_ambiguous");
-        if (got != ov && got != no) c.violation("count-wrong:neither-overlapping-nor-disjoint", "got " + std::to_string(got) + ", overlapping count " + std::to_string(ov) + ", disjoint count " + std::to_string(no));
+        if (got != ov && got != no) c.violation(S("count-wrong:neither-overlapping-nor-disjoint") + cutsfx(cs), "got " + std::to_string(got) + ", overlapping count " + std::to_string(ov) + ", disjoint count " + std::to_string(no));
         return;
     }
     expect_num(c, cs, "count", got, ov);
 }
 static void op_find(vf::Ctx& c, const Case& cs) {
-    SimpleString a(cs.s.c_str());
+    OBJ(a, cs.s, 1);
     const S& s = cs.s; char ch = (char) cs.c1;
     size_t g1 = a.find(ch), g2 = a.findFrom(cs.p, ch);
     if (cs.c1 == 0) c.count("silent_nul_character_operand");
@@ -476,17 +522,17 @@ static void op_find(vf::Ctx& c, const Case& cs) {
     expect_str(c, cs, "source-changed", a, s);
 }
 static void op_substr1(vf::Ctx& c, const Case& cs) {
-    SimpleString a(cs.s.c_str());
+    OBJ(a, cs.s, 1);
     expect_str(c, cs, "subString(pos)", a.subString(cs.p), cs.p >= cs.s.size() ? S() : cs.s.substr(cs.p));
     expect_str(c, cs, "source-changed", a, cs.s);
 }
 static void op_substr2(vf::Ctx& c, const Case& cs) {
-    SimpleString a(cs.s.c_str());
+    OBJ(a, cs.s, 1);
     expect_str(c, cs, "subString(pos,len)", a.subString(cs.p, cs.q), cs.p >= cs.s.size() ? S() : cs.s.substr(cs.p, cs.q));
     expect_str(c, cs, "source-changed", a, cs.s);
 }
 static void op_fromtill(vf::Ctx& c, const Case& cs) {
-    SimpleString a(cs.s.c_str());
+    OBJ(a, cs.s, 1);
     SimpleString got = a.subStringFromTill((char) cs.c1, (char) cs.c2);
     if (cs.c1 == 0 || cs.c2 == 0) { c.count("silent_nul_character_operand"); return; }
     if (cs.c1 == cs.c2) { c.count("silent_fromtill_same_char"); return; }
@@ -510,7 +556,7 @@ static void check_tokens(vf::Ctx& c, const Case& cs, const S& what, const S& s, 
     expect_str(c, cs, what + "/index-beyond-size", col[n], ""); expect_str(c, cs, what + "/index-beyond-size", col[n + 7], ""); expect_str(c, cs, what + "/index-beyond-size", col[NPOS], "");
 }
 static void op_split(vf::Ctx& c, const Case& cs) {
-    SimpleString a(cs.s.c_str()), d1(cs.t.c_str()), d2(cs.u.c_str());
+    OBJ(a, cs.s, 1); OBJ(d1, cs.t, 2); OBJ(d2, cs.u, 4);
     SimpleStringCollection col;
     expect_num(c, cs, "fresh-collection-size", col.size(), 0);
     a.split(d1, col);
@@ -520,7 +566,7 @@ static void op_split(vf::Ctx& c, const Case& cs) {
     expect_str(c, cs, "source-changed", a, cs.s); expect_str(c, cs, "source-changed", d1, cs.t);
 }
 static void op_replace_ch(vf::Ctx& c, const Case& cs) {
-    SimpleString a(cs.s.c_str());
+    OBJ(a, cs.s, 1);
     a.replace((char) cs.c1, (char) cs.c2);
     if (cs.c1 == 0 || cs.c2 == 0) { c.count("silent_nul_character_operand"); return; }
     S exp = cs.s; for (char& ch : exp) if (ch == (char) cs.c1) ch = (char) cs.c2;
@@ -528,7 +574,7 @@ static void op_replace_ch(vf::Ctx& c, const Case& cs) {
 }
 static void op_replace_str(vf::Ctx& c, const Case& cs) {
     CBuf tb(cs.t), ub(cs.u);
-    SimpleString a(cs.s.c_str());
+    OBJ(a, cs.s, 1);
     a.replace(tb.p, ub.p);
     if (cs.t.empty()) { c.count("silent_replace_empty_pattern"); return; }
     S exp = ref_replace(cs.s, cs.t, cs.u);
@@ -540,18 +586,18 @@ static void op_replace_str(vf::Ctx& c, const Case& cs) {
     }
 }
 static void op_lower(vf::Ctx& c, const Case& cs) {
-    SimpleString a(cs.s.c_str());
+    OBJ(a, cs.s, 1);
     expect_str(c, cs, "lowerCase", a.lowerCase(), ref_lower(cs.s));
     expect_str(c, cs, "source-changed", a, cs.s);
 }
 static void op_printable(vf::Ctx& c, const Case& cs) {
-    CBuf b(cs.s);
-    SimpleString a(b.p);
+    CBuf b(cs.s), b2(cut_src(cs, cs.s, 1));
+    SimpleString a(b2.p); cut_apply(c, cs, a, cs.s, 1);
     unsigned raw = 0, esc = 0;
     {
         SimpleString p = a.printable();
         S why = printable_check(cs.s, S(p.asCharString()), raw, esc);
-        if (!why.empty()) c.violation(S("printable-wrong:") + printable_class(cs.s), why + "; got \"" + clip(p.asCharString()) + "\"");
+        if (!why.empty()) c.violation(S("printable-wrong:") + printable_class(cs.s) + cutsfx(cs), why + "; got \"" + clip(p.asCharString()) + "\"");
         else if (p.size() != strlen(p.asCharString())) bad(c, cs, "size", "size() disagrees with content");
     }
     {
@@ -565,7 +611,7 @@ static void op_printable(vf::Ctx& c, const Case& cs) {
     expect_str(c, cs, "source-changed", a, cs.s);
 }
 static void op_pad(vf::Ctx& c, const Case& cs) {
-    SimpleString a(cs.s.c_str()), b(cs.t.c_str());
+    OBJ(a, cs.s, 1); OBJ(b, cs.t, 2);
     char ch = (char) cs.c1;
     SimpleString::padStringsToSameLength(a, b, ch);
     S ea = cs.s, eb = cs.t;
@@ -575,7 +621,7 @@ static void op_pad(vf::Ctx& c, const Case& cs) {
     expect_str(c, cs, "same-object", a, ea);
 }
 static void op_copytobuf(vf::Ctx& c, const Case& cs) {
-    SimpleString a(cs.s.c_str());
+    OBJ(a, cs.s, 1);
     size_t bs = cs.q; const S& s = cs.s;
     const unsigned char FILL = 0x5A;
     if (cs.k % 3 == 0) {
@@ -593,7 +639,7 @@ static void op_copytobuf(vf::Ctx& c, const Case& cs) {
         // larger block with a canary after bufferSize: a write beyond the size is reported by content
         std::vector<unsigned char> buf(bs + 24, FILL);
         a.copyToBuffer((char*) buf.data(), bs);
-        for (size_t i = bs; i < buf.size(); i++) if (buf[i] != FILL) { c.violation("copyToBuffer-wrong:wrote-beyond-bufferSize", "byte at offset " + std::to_string(i) + " changed, bufferSize " + std::to_string(bs) + ", string length " + std::to_string(s.size())); break; }
+        for (size_t i = bs; i < buf.size(); i++) if (buf[i] != FILL) { c.violation(S("copyToBuffer-wrong:wrote-beyond-bufferSize") + cutsfx(cs), "byte at offset " + std::to_string(i) + " changed, bufferSize " + std::to_string(bs) + ", string length " + std::to_string(s.size())); break; }
         if (bs) { size_t n = std::min(bs - 1, s.size()); if (memcmp(buf.data(), s.data(), n) != 0 || buf[n] != 0) bad(c, cs, "content", "copied bytes or terminator wrong (bufferSize " + std::to_string(bs) + ")"); }
     } else {
         a.copyToBuffer(nullptr, bs);          // NULL destination: nothing to do
@@ -780,12 +826,21 @@ static const OpFn OPFN[OP_N] = {
     op_format, op_numfmt, op_binary, op_masked, op_ordinal,
 };
 
+static int cut_mask(int op) {
+    switch (op) {
+    case OP_PLUS: case OP_EQ: case OP_CONTAINS: case OP_COUNT: case OP_PAD: return 3;
+    case OP_SPLIT: return 7;
+    case OP_COPY: case OP_FIND: case OP_SUBSTR1: case OP_SUBSTR2: case OP_FROMTILL: case OP_REPLACE_CH: case OP_REPLACE_STR: case OP_LOWER: case OP_PRINTABLE: case OP_COPYTOBUF: return 1;
+    default: return 0;      // no SimpleString operand (primitives, formatters), or the operand is the caller's C string
+    }
+}
 // the property's non-trivial rule: a position beyond the end, an empty operand, a self-overlapping pattern or a byte >= 0x80
 static bool nontrivial_case(const Case& cs) { return strcmp(cls(cs), "plain") != 0; }
 static S case_sig(const Case& cs) {
     char b[200];
     snprintf(b, sizeof b, "%d|%016llx|%016llx|%016llx|%zu|%zu|%d|%d|%llu|%llu|%d", cs.op, (unsigned long long) vf::fnv(cs.s), (unsigned long long) vf::fnv(cs.t), (unsigned long long) vf::fnv(cs.u),
              cs.p, cs.q, cs.c1, cs.c2, (unsigned long long) cs.v1, (unsigned long long) cs.v2, cs.k);
+    if (cs.cut) { char e[48]; snprintf(e, sizeof e, "|cut%d|%016llx", cs.cut, (unsigned long long) vf::fnv(cs.tail)); return S(b) + e; }
     return b;
 }
 // run one operation case: ledger reset, real code + oracle inside a scope, quiescence check
@@ -794,6 +849,7 @@ static void run_op(vf::Ctx& c, const Case& cs) {
     OPFN[cs.op](c, cs);
     c.count(S("op_") + OPS[cs.op].name);
     c.count(S("class_") + cls(cs));
+    if (cs.cut) { c.count(S("op_on_shortened_operand_") + OPS[cs.op].name); c.count("cases_with_shortened_operand"); }
 }
 static void run_case(vf::Ctx& c, const Case& cs) {
     c.begin([=] { return case_json(cs); });
@@ -862,6 +918,19 @@ static Case gen_case(vf::Rng& r, bool lng) {
     case OP_FORMAT: if (!lng && r.chance(25)) cs.s = S((size_t) r.range(90, 110), 'q'); break;
     default: break;
     }
+    // value class "text shorter than the buffer": drawn last, so that the rest of the case is the same with and without it
+    int cm = cut_mask(cs.op);
+    if (cm && r.chance(25)) {
+        cs.cut = (int) (1 + r.below(7)) & cm; if (!cs.cut) cs.cut = 1;
+        switch (r.below(5)) {                       // what stays behind the new terminator: related to the operands, so that a look at it changes the answer
+        case 0: cs.tail = cs.t; break;
+        case 1: cs.tail = cs.s.substr(0, 40); break;
+        case 2: cs.tail = gen_related(r, cs.s, al, false).substr(0, 40); break;
+        case 3: cs.tail = ""; break;                // one stale byte only (the former separator position is the terminator, the old terminator follows)
+        default: cs.tail = gen_short(r, al, 6); break;
+        }
+        if (lng && r.chance(20)) cs.tail = gen_long(r, al).substr(0, 300);
+    }
     return cs;
 }
 static void sec_ops_small(vf::Ctx& c) { run_case(c, gen_case(c.rng, false)); }
@@ -869,9 +938,25 @@ static void sec_ops_long(vf::Ctx& c) { run_case(c, gen_case(c.rng, true)); }
 
 // ---------------------------------------------------------------- histories on a pool of three live objects
 enum HKind { H_ASSIGN_CSTR, H_ASSIGN_OBJ, H_APPEND_OBJ, H_APPEND_CSTR, H_APPEND_TAIL, H_REPLACE_CH, H_REPLACE_STR, H_REPLACE_ALIAS, H_SUBSTR, H_SUBSTR1,
-             H_LOWER, H_PRINTABLE, H_PLUS, H_RECREATE_CSTR, H_RECREATE_COPY, H_RECREATE_REPEAT, H_PAD, H_SPLIT_TAKE, H_FORMAT, H_COPYOUT, H_QUERY, H_N };
+             H_LOWER, H_PRINTABLE, H_PLUS, H_RECREATE_CSTR, H_RECREATE_COPY, H_RECREATE_REPEAT, H_PAD, H_SPLIT_TAKE, H_FORMAT, H_COPYOUT, H_CUT, H_QUERY, H_N };
 static const char* HNAME[H_N] = { "assign-cstr", "assign-object", "append-object", "append-cstr", "append-own-tail", "replace-char", "replace-str", "replace-aliased", "assign-subString2", "assign-subString1",
-                                  "assign-lowerCase", "assign-printable", "assign-sum", "recreate-from-cstr", "recreate-from-copy", "recreate-repeat", "pad", "split-take-token", "assign-format", "copyToBuffer", "queries" };
+                                  "assign-lowerCase", "assign-printable", "assign-sum", "recreate-from-cstr", "recreate-from-copy", "recreate-repeat", "pad", "split-take-token", "assign-format", "copyToBuffer", "shorten-in-place", "queries" };
+// which pool objects a step reads or writes (bit 1: i, 2: j, 4: k)
+static int hop_uses(int kind) {
+    switch (kind) {
+    case H_ASSIGN_CSTR: case H_APPEND_CSTR: case H_APPEND_TAIL: case H_REPLACE_CH: case H_REPLACE_STR: case H_COPYOUT: case H_CUT: return 1;
+    case H_RECREATE_CSTR: case H_RECREATE_REPEAT: return 1;
+    case H_REPLACE_ALIAS: case H_PLUS: case H_SPLIT_TAKE: case H_FORMAT: return 7;
+    default: return 3;
+    }
+}
+// bytes of the object's buffer behind its terminator, seen from outside through the allocator ledger (0: the buffer fits the text)
+static size_t slack_of(const SimpleString& o) {
+    const char* g = o.asCharString(); size_t cap = g_rec->size_of(g);
+    if (!cap) return 0;
+    size_t n = strnlen(g, cap);
+    return n + 1 < cap ? cap - n - 1 : 0;
+}
 struct HOp { int kind; int i, j, k; S a, b; size_t p, q; int c1, c2; };
 
 static S hop_json(const HOp& h) {
@@ -896,16 +981,21 @@ static std::vector<HOp> gen_history(vf::Rng& r, bool thorough, S init[3]) {
 struct Pool {
     SimpleString* o[3]; S m[3];
 };
-static bool pool_check(vf::Ctx& c, Pool& P, const HOp& h, int step) {
+static bool pool_check(vf::Ctx& c, Pool& P, const HOp& h, int step, const char* sfx) {
     for (int x = 0; x < 3; x++) {
         const char* g = P.o[x]->asCharString();
         if (!g_rec->is_live(g, 1)) { c.violation(S("history-object-buffer-not-live:after=") + HNAME[h.kind], "object " + std::to_string(x) + " step " + std::to_string(step)); return false; }
         size_t gl = strlen(g);
         if (gl != P.m[x].size() || memcmp(g, P.m[x].data(), gl) != 0) {
-            c.violation(S("history-state-wrong:after=") + HNAME[h.kind], "step " + std::to_string(step) + " object " + std::to_string(x) + " is \"" + clip(S(g, gl)) + "\" (len " + std::to_string(gl) + ") model \"" + clip(P.m[x]) + "\" (len " + std::to_string(P.m[x].size()) + ")");
+            c.violation(S("history-state-wrong:after=") + HNAME[h.kind] + sfx, "step " + std::to_string(step) + " object " + std::to_string(x) + " is \"" + clip(S(g, gl)) + "\" (len " + std::to_string(gl) + ") model \"" + clip(P.m[x]) + "\" (len " + std::to_string(P.m[x].size()) + ")");
             return false;
         }
         if (!g_rec->is_live(g, gl + 1)) { c.violation(S("history-buffer-smaller-than-content:after=") + HNAME[h.kind], "object " + std::to_string(x) + " step " + std::to_string(step)); return false; }
+        size_t sz = P.o[x]->size(); bool em = P.o[x]->isEmpty();
+        if (sz != gl || em != (gl == 0)) {
+            c.violation(S("history-size-wrong:after=") + HNAME[h.kind] + (g_rec->size_of(g) > gl + 1 ? "+shortened-operand" : ""), "step " + std::to_string(step) + " object " + std::to_string(x) + " holds " + std::to_string(gl) + " bytes (buffer " + std::to_string(g_rec->size_of(g)) + "), size() = " + std::to_string(sz) + ", isEmpty() = " + (em ? "true" : "false"));
+            return false;
+        }
     }
     return true;
 }
@@ -916,7 +1006,7 @@ static void sec_history(vf::Ctx& c) {
     c.begin([=] { std::vector<S> v; for (const HOp& h : hs) v.push_back(hop_json(h)); return vf::J().k("init0", i0).k("init1", i1).k("init2", i2).raw("history", vf::jarr(v)).str(); });
     case_start(c, "history:init");
     const size_t LIMIT = c.thorough ? 8000 : 4000;
-    bool feat_alias = false, feat_empty = false, feat_beyond = false, feat_border = false, feat_high = false;
+    bool feat_alias = false, feat_empty = false, feat_beyond = false, feat_border = false, feat_high = false, any_short = false;
     uint64_t sig = 0xcbf29ce484222325ull;
     {
         Pool P;
@@ -928,6 +1018,10 @@ static void sec_history(vf::Ctx& c) {
             SimpleString& I = *P.o[h.i]; SimpleString& Jo = *P.o[h.j]; SimpleString& K = *P.o[h.k];
             S& mi = P.m[h.i]; const S mj = P.m[h.j]; const S mk = P.m[h.k];      // copies: the model must not alias
             bool skipped = false;
+            // operands whose text is shorter than their buffer (left behind by an earlier shorten-in-place step that no later step has re-allocated)
+            int uses = hop_uses(h.kind);
+            bool sh = ((uses & 1) && slack_of(I)) || ((uses & 2) && slack_of(Jo)) || ((uses & 4) && slack_of(K));
+            const char* sfx = sh ? "+shortened-operand" : "";
             switch (h.kind) {
             case H_ASSIGN_CSTR: { CBuf b(h.a); I = b.p; mi = h.a; feat_empty |= h.a.empty(); break; }
             case H_ASSIGN_OBJ: I = Jo; mi = mj; feat_alias |= h.i == h.j; break;
@@ -953,7 +1047,7 @@ static void sec_history(vf::Ctx& c) {
                 I = Jo.printable();
                 S got(I.asCharString()); unsigned r1 = 0, r2 = 0;
                 S why = printable_check(mj, got, r1, r2);
-                if (!why.empty()) c.violation(S("printable-wrong:") + printable_class(mj), "in history step " + std::to_string(step) + ": " + why);
+                if (!why.empty()) c.violation(S("printable-wrong:") + printable_class(mj) + sfx, "in history step " + std::to_string(step) + ": " + why);
                 mi = got;     // two renderings of high-bit bytes are acceptable: the model follows the accepted one
                 break;
             }
@@ -971,7 +1065,7 @@ static void sec_history(vf::Ctx& c) {
                 SimpleStringCollection col;
                 Jo.split(K, col);
                 std::vector<S> e = ref_split(mj, mk);
-                if (col.size() != e.size()) { c.violation("history-split-token-count-wrong", "step " + std::to_string(step) + " got " + std::to_string(col.size()) + " expected " + std::to_string(e.size())); break; }
+                if (col.size() != e.size()) { c.violation(S("history-split-token-count-wrong") + sfx, "step " + std::to_string(step) + " got " + std::to_string(col.size()) + " expected " + std::to_string(e.size())); break; }
                 size_t idx = h.p % (e.size() + 1);
                 I = col[idx]; mi = idx < e.size() ? e[idx] : S();
                 feat_border |= has_border(mk); feat_alias |= (h.j == h.k); feat_beyond |= idx == e.size();
@@ -983,22 +1077,58 @@ static void sec_history(vf::Ctx& c) {
                 size_t bs = h.q > mi.size() + 3 ? mi.size() + 1 : h.q;
                 char* buf = (char*) malloc(bs ? bs : 1); memset(buf, 0x5A, bs ? bs : 1);
                 I.copyToBuffer(buf, bs);
-                if (bs) { size_t n = std::min(bs - 1, mi.size()); if (memcmp(buf, mi.data(), n) != 0 || buf[n] != 0) c.violation("history-copyToBuffer-wrong", "step " + std::to_string(step)); }
+                if (bs) { size_t n = std::min(bs - 1, mi.size()); if (memcmp(buf, mi.data(), n) != 0 || buf[n] != 0) c.violation(S("history-copyToBuffer-wrong") + sfx, "step " + std::to_string(step)); }
                 free(buf); break;
             }
+            case H_CUT: {
+                // replace(ch, '\0') is the one public operation that shortens a string in place. What it yields is not judged (NUL as a
+                // character operand): the model adopts what the object holds afterwards; all later steps are judged on that text.
+                char ch = (h.c2 % 4 != 0 && !mi.empty()) ? mi[h.p % mi.size()] : (char) h.c1;
+                I.replace(ch, '\0');
+                const char* g = I.asCharString(); size_t cap = g_rec->size_of(g);
+                size_t n = cap ? strnlen(g, cap) : 0;
+                c.count("silent_nul_character_operand");
+                if (cap && n < cap) {
+                    S now(g, n);
+                    size_t f = mi.find(ch);
+                    c.count(now == mi.substr(0, f) ? "history_shorten_result_is_text_up_to_first_occurrence" : "history_shorten_result_other_not_judged");
+                    if (n < mi.size()) c.count("history_shorten_steps_effective");
+                    mi = now;
+                }
+                break;
+            }
             default: {
-                bool e1 = mi.find(mj) != S::npos, e2 = mj.size() <= mi.size() && mi.compare(0, mj.size(), mj) == 0, e3 = mj.size() <= mi.size() && mi.compare(mi.size() - mj.size(), mj.size(), mj) == 0;
-                if (I.contains(Jo) != e1 || I.startsWith(Jo) != e2 || I.endsWith(Jo) != e3 || (I == Jo) != (mi == mj) || I.equalsNoCase(Jo) != (ref_lower(mi) == ref_lower(mj)))
-                    c.violation("history-query-wrong", "step " + std::to_string(step) + " contains/startsWith/endsWith/==/equalsNoCase disagree with the model");
-                if (!mj.empty() && ref_count(mi, mj, true) == ref_count(mi, mj, false) && I.count(Jo) != ref_count(mi, mj, true)) c.violation("history-count-wrong", "step " + std::to_string(step));
-                feat_empty |= mj.empty(); feat_alias |= h.i == h.j;
+                size_t cn_o = mj.empty() ? 0 : ref_count(mi, mj, true), cn_d = mj.empty() ? 0 : ref_count(mi, mj, false), cn_got = I.count(Jo);
+                char ch = (char) h.c1;                      // never NUL in histories
+                size_t fp = h.p, ai = h.q % (mi.size() + 1);
+                size_t ef = mi.find(ch), eff = fp >= mi.size() ? S::npos : mi.find(ch, fp);
+                struct Q { const char* name; bool ok; } qs[] = {
+                    { "contains", I.contains(Jo) == (mi.find(mj) != S::npos) },
+                    { "containsNoCase", I.containsNoCase(Jo) == (ref_lower(mi).find(ref_lower(mj)) != S::npos) },
+                    { "startsWith", I.startsWith(Jo) == (mj.size() <= mi.size() && mi.compare(0, mj.size(), mj) == 0) },
+                    { "endsWith", I.endsWith(Jo) == (mj.size() <= mi.size() && mi.compare(mi.size() - mj.size(), mj.size(), mj) == 0) },
+                    { "==", (I == Jo) == (mi == mj) },
+                    { "!=", (I != Jo) == (mi != mj) },
+                    { "equalsNoCase", I.equalsNoCase(Jo) == (ref_lower(mi) == ref_lower(mj)) },
+                    { "count", mj.empty() || cn_o != cn_d || cn_got == cn_o },
+                    { "find", I.find(ch) == (ef == S::npos ? NPOS : ef) },
+                    { "findFrom", I.findFrom(fp, ch) == (eff == S::npos ? NPOS : eff) },
+                    { "at", I.at(ai) == (ai < mi.size() ? mi[ai] : 0) },
+                    { "subString", S(I.subString(fp, h.q).asCharString()) == (fp >= mi.size() ? S() : mi.substr(fp, h.q)) },
+                };
+                for (const Q& q : qs) if (!q.ok)
+                    c.violation(S("history-query-wrong:") + q.name + sfx, "step " + std::to_string(step) + ": " + q.name + " on object " + std::to_string(h.i) + " \"" + clip(mi) + "\" (buffer slack " + std::to_string(slack_of(I)) + ") with object " + std::to_string(h.j) + " \"" + clip(mj) + "\" (buffer slack " + std::to_string(slack_of(Jo)) + "), character " + std::to_string((int) (unsigned char) ch) + ", position " + zs(fp) + " disagrees with the model");
+                c.count("history_queries_judged", sizeof qs / sizeof qs[0]);
+                if (sh) c.count("history_queries_judged_on_shortened_operand", sizeof qs / sizeof qs[0]);
+                feat_empty |= mj.empty(); feat_alias |= h.i == h.j; feat_beyond |= fp > mi.size();
                 break;
             }
             }
             c.count(skipped ? "history_ops_skipped_silent_or_size_cap" : S("hop_") + HNAME[h.kind]);
+            if (sh && !skipped) { c.count("history_steps_on_shortened_operand"); c.count(S("hop_on_shortened_operand_") + HNAME[h.kind]); any_short = true; }
             sig = vf::fnv(hop_json(h), sig);
             for (int x = 0; x < 3; x++) feat_high |= has_high(P.m[x]);
-            if (!pool_check(c, P, h, step)) break;
+            if (!pool_check(c, P, h, step, sfx)) break;
         }
         c.count("history_steps", (uint64_t) step);
         g_opname = "history:destroy";
@@ -1007,6 +1137,7 @@ static void sec_history(vf::Ctx& c) {
     case_end(c);
     if (feat_alias) c.count("histories_with_self_aliasing");
     if (feat_border) c.count("histories_with_self_overlapping_pattern");
+    if (any_short) c.count("histories_with_steps_on_shortened_operand");
     if (feat_alias || feat_empty || feat_beyond || feat_border || feat_high) {
         sig = vf::fnv(i0 + "\x01" + i1 + "\x01" + i2, sig);
         c.nontrivial("history:" + std::to_string(sig));
@@ -1057,6 +1188,24 @@ static void sec_positions_ab(vf::Ctx& c) {
     cs.k = (int) (c.idx % 2);
     run_multi(c, cs, ops);
 }
+// the same two finite domains with the operand objects shortened in place (stale tail: pattern + subject, so that a look behind the
+// terminator finds both again)
+static const int CUTMODES[] = { 1, 2, 7 };
+static void sec_pattern_ab_cut(vf::Ctx& c) {
+    uint64_t i = c.idx;
+    Case cs; cs.s = ab_string(i % N_AB_S); i /= N_AB_S; cs.t = ab_string(i % N_AB_T); i /= N_AB_T; cs.cut = CUTMODES[i % 3];
+    cs.u = "b"; cs.c1 = 'a'; cs.c2 = 'b'; cs.tail = cs.t + cs.s;
+    run_multi(c, cs, { OP_CONTAINS, OP_REPLACE_STR, OP_SPLIT, OP_COUNT, OP_EQ, OP_PLUS, OP_PAD, OP_COPY, OP_LOWER });
+}
+static void sec_positions_ab_cut(vf::Ctx& c) {
+    uint64_t i = c.idx;
+    Case cs; cs.s = ab_string(i % 15); i /= 15; cs.p = POSL[i % 9]; i /= 9; cs.q = POSL[i % 9];
+    cs.c1 = 'a'; cs.c2 = 'b'; cs.cut = 1; cs.tail = S("ab") + cs.s;
+    std::vector<int> ops = { OP_SUBSTR2, OP_SUBSTR1, OP_FIND, OP_FROMTILL };
+    if (cs.q <= 6) ops.push_back(OP_COPYTOBUF);
+    cs.k = (int) (c.idx % 2);
+    run_multi(c, cs, ops);
+}
 static const uint64_t N_FMT_LEN = 301;
 static void sec_format_boundary(vf::Ctx& c) {
     size_t L = (size_t) (c.idx % N_FMT_LEN); int tmpl = (int) (c.idx / N_FMT_LEN);
@@ -1098,6 +1247,8 @@ int main(int argc, char** argv) {
         { "hex_signed_char_all", 256, 256, sec_hex_signed_char, true },
         { "masked_bits_walk", 10 * 64 * 3, 10 * 64 * 3, sec_masked_walk, true },
         { "binary_sizes_0_140", 141 * 4, 141 * 4, sec_binary_sizes, true },
+        { "pattern_ops_ab_shortened_in_place", N_AB_S * N_AB_T * 3, N_AB_S * N_AB_T * 3, sec_pattern_ab_cut, true },
+        { "position_ops_ab_shortened_in_place", 15 * 9 * 9, 15 * 9 * 9, sec_positions_ab_cut, true },
         { "ops_small", 800000, 10000000, sec_ops_small, false },
         { "ops_long", 10000, 400000, sec_ops_long, false },
         { "histories", 50000, 1000000, sec_history, false },
